@@ -30,7 +30,7 @@ func runC15(opt *Options) int {
 		Kernels: []layera.Kernel{
 			kernelFileManager(),
 			{Name: "K8.outputpackage", Pkg: "config", Harness: "VerifHarness_C15_OutputPackage", Unwind: 64, Stub: []string{"github.com/jmattheis/goverter/method.Parse"}},
-			{Name: "K8.outputfile", Pkg: "config", Harness: "VerifHarness_C15_OutputFile", Unwind: 64, Stub: []string{"github.com/jmattheis/goverter/method.Parse"}},
+			{Name: "K8.outputfile", Pkg: "config", Harness: "VerifHarness_C15_OutputFile", Unwind: 64, Stub: []string{"github.com/jmattheis/goverter/method.Parse"}, E2E: "c15"},
 			{Name: "K8.resolvepackage", Pkg: "config", Harness: "VerifHarness_C15_ResolvePackage", Unwind: 64, E2E: "c15"},
 			kernelGenerateConverters("c15"),
 		},
